@@ -274,7 +274,7 @@ def shrink(line, fails):
             for op in sub:
                 ref.step(op)
             return True
-        except (Unspecified, IndexError, ValueError, AttributeError):
+        except (Unspecified, IndexError, ValueError, AttributeError, TypeError, KeyError):
             return False
     # removing an op renumbers later handles, so only truncation and removal of ops that register
     # no handle are tried
